@@ -53,9 +53,9 @@ type Change struct {
 
 // SCase is one synchronisation scenario.
 type SCase struct {
-	Regions   []Reg  `json:"regions"`             // the leader's regions before anything is synchronised (contiguous ranges)
-	HistIdx   uint64 `json:"hist"`                // history index found in the leader's region storage at start-up; 0 = none (fresh leader)
-	HistPlusN bool   `json:"hist_plus_n"`         // add len(Regions) to HistIdx (index values close to the number of regions)
+	Regions   []Reg  `json:"regions"`     // the leader's regions before anything is synchronised (contiguous ranges)
+	HistIdx   uint64 `json:"hist"`        // history index found in the leader's region storage at start-up; 0 = none (fresh leader)
+	HistPlusN bool   `json:"hist_plus_n"` // add len(Regions) to HistIdx (index values close to the number of regions)
 	// follower keeps regions in the leveldb region storage (use-region-storage=true, the default) or in its default storage
 	RegionStorage bool     `json:"region_storage"`
 	Pre           []Change `json:"pre,omitempty"`     // changes before the follower connects (end up in the leader's change log)
